@@ -537,7 +537,7 @@ def gen_process_program(rng, cfg=None):
             elif kind == 'stop':
                 ret = {'t': 'stop', 'v': gen_value(rng), 'ok': rng.random() < 0.5}
             elif kind == 'unsuccessful':
-                ret = {'t': 'unsuccessful', 'v': rng.choice([1, 2, 400])}
+                ret = {'t': 'unsuccessful', 'v': rng.choice([1, 2, 400, 0, None, '', False])}
             elif kind == 'kill':
                 ret = {'t': 'kill', 'msg': rng.choice([None, 'prog-kill'])}
                 if cfg.get('raw_kill') and rng.random() < 0.4:
